@@ -1,26 +1,82 @@
-import Drand.Chain.Stack
+import Drand.Chain.MemStack
+import Gen.DKGTable
 import Drand.Driver.Store
-namespace Drand.Driver
+namespace Drand.Driver.ChainD
+open Drand.Driver.StoreD
 open Drand Drand.Store Drand.Chain
 
-/-- ops: init <chained 0|1> <seed> | put r sig prev | restart | raw r sig prev | last | scan -/
-def chainStep (s : Stack) (f : List String) : Stack × String :=
+inductive AnyStack where
+  | map (s : Stack) (seed : Bytes)
+  | ring (s : MemStack) (seed : Bytes)
+
+def raceBeacons (chained : Bool) (last : Beacon) (n : Nat) : List Beacon :=
+  ((List.range n).foldl (fun (acc : List Beacon × Bytes) i =>
+    let r := last.round + 1 + i
+    let sig : Bytes := [UInt8.ofNat (r * 7), UInt8.ofNat r, 0x5a]
+    (acc.1 ++ [⟨r, sig, if chained then acc.2 else []⟩], sig)) ([], last.sig)).1
+
+/-- `chain <backend>`: ops  init <scheme> <seed> | put r sig prev | failput r sig prev | restart | raw r sig prev |
+race n w | last | scan.   The backend decides the base model: mem<cap> is the ring, anything else the map. -/
+def chainStep (cap : Option Nat) (st : AnyStack) (f : List String) : AnyStack × String :=
   match f with
-  | ["init", c, seed] =>
+  | ["init", sch, seed] =>
     match fromHex seed with
-    | some sd => (Stack.init (c == "1") sd, "ok")
-    | none => (s, "bad-op")
+    | some sd =>
+      let chained := sch == Gen.defaultSchemeID
+      (match cap with
+       | some c => .ring (MemStack.init chained c sd) sd
+       | none => .map (Stack.init chained sd) sd, "ok")
+    | none => (st, "bad-op")
   | ["put", r, sg, pv] =>
     match parseBeacon r sg pv with
-    | some b => let (s', res) := s.put b; (s', res.show)
-    | none => (s, "bad-op")
-  | ["restart"] => (s.restart, "ok")
+    | some b =>
+      (match st with
+       | .map s sd => let (s', res) := s.put b; (.map s' sd, res.show)
+       | .ring s sd => let (s', res) := s.put b; (.ring s' sd, res.show))
+    | none => (st, "bad-op")
+  | ["failput", r, sg, pv] =>
+    match parseBeacon r sg pv with
+    | some b =>
+      (match st with
+       | .map s _ => let res := (s.put b).2; (st, if res == .ok then "err-write" else res.show)
+       -- memdb ignores the context: the write goes through
+       | .ring s sd => let (s', res) := s.put b; (.ring s' sd, res.show))
+    | none => (st, "bad-op")
+  | ["restart"] =>
+    (match st with
+     | .map s sd => .map (s.restartG sd) sd
+     | .ring s sd => .ring (s.restartG sd) sd, "ok")
   | ["raw", r, sg, pv] =>
     match parseBeacon r sg pv with
-    | some b => (s.rawPut b, "ok")
-    | none => (s, "bad-op")
-  | ["last"] => (s, (Bolt.last s.base).show)
-  | ["scan"] => (s, if s.base.isEmpty then "empty" else "|".intercalate (s.base.map fun p => p.2.show))
-  | _ => (s, "bad-op")
+    | some b =>
+      (match st with
+       | .map s sd => .map (s.rawPut b) sd
+       | .ring s sd => .ring (s.rawPut b) sd, "ok")
+    | none => (st, "bad-op")
+  -- `race n w`: w writers race to append the same n next beacons; by the mutex every interleaving is a sequence of
+  -- puts, and any such sequence appends each beacon exactly once: the model applies them once, in order
+  | ["race", n, _w] =>
+    match n.toNat? with
+    | some n =>
+      let ok := "race oks=" ++ ",".intercalate (List.replicate n "1") ++ " bad=0"
+      (match st with
+       | .map s sd => .map ((raceBeacons s.chained (Stack.last s.base) n).foldl (fun a b => (a.put b).1) s) sd
+       | .ring s sd => .ring ((raceBeacons s.chained (MemStack.last s.base) n).foldl (fun a b => (a.put b).1) s) sd, ok)
+    | none => (st, "bad-op")
+  | ["last"] => (st, match st with
+      | .map s _ => (Bolt.last s.base).show
+      | .ring s _ => (Mem.last s.base).show)
+  | ["scan"] =>
+    let l : List Beacon := match st with
+      | .map s _ => s.base.map (·.2)
+      | .ring s _ => s.base.store
+    (st, if l.isEmpty then "empty" else "|".intercalate (l.map Beacon.show))
+  | _ => (st, "bad-op")
 
-end Drand.Driver
+def chainInit (backend : String) : Option Nat × AnyStack :=
+  if backend.startsWith "mem" then
+    let c := ((backend.drop 3).toString.toNat?).getD 2000
+    (some c, .ring (MemStack.init true c []) [])
+  else (none, .map (Stack.init true []) [])
+
+end Drand.Driver.ChainD
